@@ -385,7 +385,9 @@ def _coarse_key(case, r):
         why, detail = _explain(case, r["strategy"], 8)
         if why != "inherited":
             return json.dumps(["inherited", "unreproducible"])
-        _, key07 = C07.SHRINK.shrink_to_key(detail["case07"], detail["kind07"])
+        key07 = C07.case_key(detail["case07"])
+        if key07 is None:
+            return json.dumps(["inherited", "unreproducible"])
         return json.dumps(["inherited", json.loads(key07)])
     return None
 
